@@ -9,7 +9,7 @@ out=/verif/seeded/$name; mkdir -p $out
 cp $wt/SEED/patch.diff $out/patch.diff; cp $wt/SEED/demo_test.go $out/demo_test.go; cp $wt/SEED/NOTES.md $out/NOTES.md 2>/dev/null
 cd $wt || exit 2
 mv SEED /tmp/seed/SEED_$name.$$ 2>/dev/null
-git stash -q 2>/dev/null; git checkout -q -- . ; git apply $out/patch.diff || { echo "patch does not apply in worktree"; exit 2; }
+git checkout -q -- . ; git apply $out/patch.diff || { echo "patch does not apply in worktree"; exit 2; }
 cp $out/demo_test.go ./zz_seed_demo_test.go
 go test -vet=off -count=1 -run "$rx" . > /tmp/seed/with.$$ 2>&1; with=$?
 rm -f zz_seed_demo_test.go
